@@ -179,11 +179,11 @@ def build_policy(pol, flags):
     name = pol["name"]
     rt = T(pol.get("runtime", 0))
     if name == "EDF":
-        return S.EDFScheduler(preemptive=False, runtime=rt, enforce_deadlines=pol.get("enforce_deadlines", False), _flags=flags)
+        return S.EDFScheduler(preemptive=pol.get("preemptive", False), runtime=rt, enforce_deadlines=pol.get("enforce_deadlines", False), _flags=flags)
     if name == "FIFO":
         return S.FIFOScheduler(preemptive=False, runtime=rt, enforce_deadlines=pol.get("enforce_deadlines", False), _flags=flags)
     if name == "LSF":
-        return S.LSFScheduler(preemptive=False, runtime=rt, _flags=flags)
+        return S.LSFScheduler(preemptive=pol.get("preemptive", False), runtime=rt, _flags=flags)
     if name == "Scripted":
         from pbt.scripted import ScriptedPlanner
 
